@@ -381,3 +381,55 @@ def discards(fn, fx):
                 if not local_uses(fn, ut["dest"]["l"]) and ut["dest"]["l"] != 0:
                     out.append((b, t, e, c.rsplit("::", 1)[-1]))
     return out
+
+
+# ---------------------------------------------------------------------------------------------
+# LIMIT — generic counter/limit/breach pairing
+
+
+def limit_rule(ctx, fx, fns, table, breach_adt, config, is_limit=None, rule="LIMIT", counter_ok=None):
+    """table: limit rendering -> dict(counter=<deep rendering or predicate>, variant=<breach variant>, floor=n).
+    For every bool switch on a comparison one side of which renders to a table limit: the other
+    side must be the paired counter, the form must reject exactly when counter > limit, and the
+    reject edge must construct breach_adt::variant on every path.  Unknown limits (is_limit)
+    are violations.  Returns {limit: [(fn, compare dict, reject edge)]}."""
+    seen = {k: [] for k in table}
+    for f in fns:
+        ctx.saw(f)
+        with f.deep():
+            cmps = list(compares(f))
+        for c in cmps:
+            if c["rl"] in table:
+                side = "l"
+            elif c["rr"] in table:
+                side = "r"
+            elif is_limit and (is_limit(c["rl"]) or is_limit(c["rr"])):
+                ctx.bad(rule, "%s:%s:%s:unknown-limit:%s~%s" % (ctx.prop, rule, f.npath, c["rl"], c["rr"]),
+                        "comparison against a limit that is not in the reviewed table", config, ctx.where(f, ln=c["ln"]))
+                continue
+            else:
+                continue
+            limit = c["rl"] if side == "l" else c["rr"]
+            counter = c["rr"] if side == "l" else c["rl"]
+            row = table[limit]
+            key = "%s:%s:%s:%s" % (ctx.prop, rule, f.npath, limit.rsplit(".", 1)[-1])
+            where = ctx.where(f, ln=c["ln"])
+            exp = row["counter"]
+            okc = exp(counter) if callable(exp) else counter == exp
+            if not okc:
+                ctx.bad(rule, key + ":counter", "limit %s is compared with `%s`, expected %s" % (limit, counter, row.get("counter_desc", exp)), config, where)
+                continue
+            form = (c["op"], side == "r")
+            if form not in STRICT_REJECT_FORMS:
+                ctx.bad(rule, key + ":strict", "comparison `%s %s %s` does not reject exactly when count > limit (off-by-one or inverted)" % (c["rl"], c["op"], c["rr"]), config, where)
+                continue
+            reject = c["t"] if STRICT_REJECT_FORMS[form] else c["f"]
+            agg_blocks = [b for b, i, adt, var, fields, ops, s_ in aggregates(f) if adt == breach_adt and var == row["variant"]]
+            okb = bool(agg_blocks) and must_pass(f, [reject], agg_blocks)
+            ctx.check(okb, rule, key + ":breach", "reject edge constructs %s::%s" % (breach_adt, row["variant"]),
+                      "the reject edge of `%s > %s` does not (always) construct %s::%s" % (counter, limit, breach_adt, row["variant"]), config, where)
+            ctx.ok(rule, key + ":strict", "`%s %s %s` rejects exactly when count > limit" % (c["rl"], c["op"], c["rr"]), config, where)
+            seen[limit].append((f, c, reject))
+    for limit, row in table.items():
+        ctx.floor("%s.%s" % (rule, limit.rsplit(".", 1)[-1]), len(seen[limit]), row.get("floor", 1), config)
+    return seen
